@@ -108,7 +108,13 @@ def decision_table(ctx, fn, max_visits=1):
         for e in p.events:
             if e[0] == 'call' and e[1].startswith('ast::Scope::') and e[1].split('::')[-1] in SCOPE_EFFECTS:
                 effects.append('%s(%s)' % (e[1].split('::')[-1], ', '.join(S(a)[:80] for a in e[2][1:])))
-        rows.append({'conds': conds, 'checks': checks, 'effects': effects, 'out': out})
+        val = ''
+        if kind == 'RET' and isinstance(ret, tuple):
+            val = S(ret)
+            if len(val) > 360:
+                import hashlib
+                val = val[:300] + '…#' + hashlib.sha1(val.encode()).hexdigest()[:10]
+        rows.append({'conds': conds, 'checks': checks, 'effects': effects, 'out': out, 'value': val})
     return rows
 
 
@@ -116,7 +122,7 @@ SCOPE_EFFECTS = ('push_scope', 'pop_scope', 'push_main_scope', 'pop_main_scope',
 
 
 def row_key(r):
-    return json.dumps([r['conds'], r['checks'], r['out'], r.get('effects', [])], ensure_ascii=False)
+    return json.dumps([r['conds'], r['checks'], r['out'], r.get('effects', []), r.get('value', '')], ensure_ascii=False)
 
 
 EXTRA = re.compile(r'^(value::UIntValue::parse_decimal|value::Value::(from_const_expr|is_of_type|parse_from_str)|types::AliasedType::(resolve|resolve_builtin)(::\{closure#\d+\})?|types::BuiltinAlias::resolve|types::UIntType::(from_bit_width|bit_width|byte_width)|num::(NonZero)?Pow2Usize::new|<num::U256 as std::str::FromStr>::from_str|TemplateProgram::(new|instantiate)|CompiledProgram::new)$')
@@ -178,10 +184,10 @@ def compare(ctx, rid, paths, table, what):
         ctx.ob(rid, 'table:' + path, not missing and not extra, '%s: %d decision rows equal the reviewed table' % (what, len(cur)), fn.where())
         for m in missing[:6]:
             ctx.ob(rid, 'row-missing:%s:%s' % (path, m[2]), False, 'reviewed decision row no longer present (check removed or changed)', fn.where(),
-                   'when [%s] after checks %s with scope effects %s => %s' % (' & '.join(m[0]), m[1], m[3], m[2]))
+                   'when [%s] after checks %s with scope effects %s => %s  value %s' % (' & '.join(m[0]), m[1], m[3], m[2], m[4][:300]))
         for m in extra[:6]:
             ctx.ob(rid, 'row-new:%s:%s' % (path, m[2]), False, 'decision row not in the reviewed table (new or weakened condition)', fn.where(),
-                   'when [%s] after checks %s with scope effects %s => %s' % (' & '.join(m[0]), m[1], m[3], m[2]))
+                   'when [%s] after checks %s with scope effects %s => %s  value %s' % (' & '.join(m[0]), m[1], m[3], m[2], m[4][:300]))
     return n
 
 
